@@ -296,6 +296,7 @@ func (pg *program) Generate() error {
 	sort.Slice(pkgInfos, func(i, j int) bool {
 		return pkgInfos[i].Pkg.Path() < pkgInfos[j].Pkg.Path()
 	})
+	pkgInfos = importedFirst(pkgInfos)
 	for i := range pkgInfos {
 		if err := pg.generatePackage(pkgInfos[i]); err != nil {
 			return err
@@ -315,6 +316,37 @@ func isExternalTestPackage(program *loader.Program, pkgInfo *loader.PackageInfo)
 		}
 	}
 	return true
+}
+
+// importedFirst reorders the packages such that a package comes after the packages it imports, and otherwise keeps the order.
+// The type of a derive call's argument can depend on a function that is generated for an imported package:
+// whether that function exists yet should not depend on how the packages were named on the command line.
+func importedFirst(pkgInfos []*loader.PackageInfo) []*loader.PackageInfo {
+	named := make(map[*types.Package]*loader.PackageInfo, len(pkgInfos))
+	for _, pkgInfo := range pkgInfos {
+		named[pkgInfo.Pkg] = pkgInfo
+	}
+	ordered := make([]*loader.PackageInfo, 0, len(pkgInfos))
+	visited := make(map[*types.Package]bool)
+	var visit func(p *types.Package)
+	visit = func(p *types.Package) {
+		if visited[p] {
+			return
+		}
+		visited[p] = true
+		imports := append([]*types.Package{}, p.Imports()...)
+		sort.Slice(imports, func(i, j int) bool { return imports[i].Path() < imports[j].Path() })
+		for _, imported := range imports {
+			visit(imported)
+		}
+		if pkgInfo, ok := named[p]; ok {
+			ordered = append(ordered, pkgInfo)
+		}
+	}
+	for _, pkgInfo := range pkgInfos {
+		visit(pkgInfo.Pkg)
+	}
+	return ordered
 }
 
 func (pg *program) generatePackage(pkgInfo *loader.PackageInfo) error {
